@@ -26,9 +26,14 @@ other builders' use of py2lean2.py is untouched):
   drop rules                           ->  statements without a meaning in the model (`warnings.warn(..)`)
   str constants without a rule         ->  `()` (they only occur in messages)
   binds inside loop bodies             ->  an exit of the loop with the error (`bind_exit`)
+  helper(args) without a rule          ->  a plain function of the same package is translated too and INLINED at the call
+                                           site (parameters let-bound, each `return e` continues with the caller's
+                                           statement; same rules) — an extracted helper is not a new word
+  x in (a, b, c)                       ->  (x == a || x == b || x == c)
 """
 import ast
 import os
+import types
 
 from . import py2lean2 as P
 from .py2lean2 import Untranslatable, match, _pat, _proj, _tuple
@@ -49,6 +54,8 @@ class Rules16(P.Rules2):
     def __init__(self, multi=(), withs=(), drop=(), exc=None, raise_tmpl=".error {x}", pure_tmpl=".ok ({e})",
                  try_fn="PyX.tryE", fuel=None, diverge=None, bind_exit=None, stmt=(), **kw):
         self.stmt_flag = [(s[3] if len(s) > 3 else "") for s in stmt]
+        # applied, not dotted: the monadic value may have a type Lean has not inferred yet (exit value of a loop)
+        kw.setdefault("bind", "Except.bind ({m}) fun {x} =>\n{k}")
         P.Rules2.__init__(self, stmt=[s[:3] for s in stmt], **kw)
         self.multi = [(_pat(m[0], "stmt"), m[1], (m[2] if len(m) > 2 else None)) for m in multi]
         self.withs = [(_pat(p, "expr"), t, (fl[0] if fl else "")) for p, t, *fl in withs]
@@ -59,7 +66,9 @@ class Rules16(P.Rules2):
         self.try_fn = try_fn
         self.fuel = fuel
         self.diverge = diverge
-        self.bind_exit = bind_exit or ("match {m} with\n{pad}| .error e_ =>\n{fail}\n{pad}| .ok {x} =>\n{k}")
+        # PyX.tryE rather than a `match`: the type of {m} may still be unknown when Lean reaches this point (the exit
+        # component of an inner loop), and an application unifies it where a pattern match would be stuck
+        self.bind_exit = bind_exit or ("PyX.tryE ({m}) (fun {x} =>\n{k})\n{pad}  (fun e_ =>\n{fail})")
 
 
 class _C:
@@ -67,6 +76,27 @@ class _C:
 
     def __init__(self, exit_, end, raise_, bind, brk=None):
         self.exit, self.end, self.raise_, self.bind, self.brk = exit_, end, raise_, bind, brk
+
+
+def reindent(text, ind):
+    """the block `text` shifted so that its least indented line starts at column 2 * ind (Lean wants the right-hand side
+    of a match alternative at or right of its `|`)"""
+    lines = text.split("\n")
+    lead = [len(l) - len(l.lstrip(" ")) for l in lines if l.strip()]
+    if not lead:
+        return text
+    shift = 2 * ind - min(lead)
+    if shift == 0:
+        return text
+    out = []
+    for l in lines:
+        if not l.strip():
+            out.append(l)
+        elif shift > 0:
+            out.append(" " * shift + l)
+        else:
+            out.append(l[min(-shift, len(l) - len(l.lstrip(" "))):])
+    return "\n".join(out)
 
 
 def _fold(text):
@@ -92,6 +122,9 @@ class Translator16(P.Translator2):
         self._lazy = 0         # > 0 while translating a sub-expression Python evaluates lazily / repeatedly
         self._n = 0
         self._bind_seen = False
+        self._globals = {}
+        self._pkg = None
+        self._inlining = []
 
     # ------------------------------------------------------------------------------------------ expressions
     def lazily(self, f, *a):
@@ -102,11 +135,19 @@ class Translator16(P.Translator2):
             self._lazy -= 1
 
     def expr(self, node, scope):
+        if (isinstance(node, ast.Compare) and len(node.ops) == 1 and isinstance(node.ops[0], ast.In)
+                and isinstance(node.comparators[0], (ast.Tuple, ast.List)) and node.comparators[0].elts
+                and all(isinstance(e, ast.Constant) for e in node.comparators[0].elts)):
+            a = self.pure(node.left, scope)
+            return "(" + " || ".join("(%s == %s)" % (a, self.pure(e, scope)) for e in node.comparators[0].elts) + ")", "bool"
         for i, (pat, tmpl, flag) in enumerate(self.r.expr):
             env = {}
             if match(pat, node, env):
                 self.used_rules.add(i)
                 return tmpl.format(**{k: self.pure(v, scope) for k, v in env.items()}), flag
+        fn = self.inlinable(node, scope)
+        if fn is not None:
+            return self.hoist_inline(node, fn, scope), ""
         if isinstance(node, ast.BoolOp):
             op = " && " if isinstance(node.op, ast.And) else " || "
             parts = [self.cond(node.values[0], scope)] + [self.lazily(self.cond, v, scope) for v in node.values[1:]]
@@ -151,8 +192,93 @@ class Translator16(P.Translator2):
             raise Untranslatable("monadic operand in a lazily evaluated position: `%s`" % ast.unparse(node))
         tmp = "tmp%d" % self._n
         self._n += 1
-        self._frames[-1].append((e, tmp))
+        self._frames[-1].append(("bind", e, tmp))
         return tmp
+
+    def inlinable(self, node, scope):
+        """the python function a call without a rule refers to, if it is a plain function of the package under translation"""
+        if not (isinstance(node, ast.Call) and isinstance(node.func, ast.Name)):
+            return None
+        name = node.func.id
+        if name in scope or name in self.r.names:
+            return None
+        fn = self._globals.get(name)
+        if not isinstance(fn, types.FunctionType) or (fn.__module__ or "").split(".")[0] != self._pkg:
+            return None
+        if any(isinstance(a, ast.Starred) for a in node.args) or any(k.arg is None for k in node.keywords):
+            return None
+        return fn
+
+    def hoist_inline(self, node, fn, scope):
+        if self._lazy or not self._frames:
+            raise Untranslatable("call of the helper `%s` in a lazily evaluated position" % node.func.id)
+        if fn.__name__ in self._inlining or len(self._inlining) > 3:
+            raise Untranslatable("recursive helper `%s`" % fn.__name__)
+        fnode, _src = P.source_ast(fn)
+        a = fnode.args
+        if a.vararg or a.kwarg or a.kwonlyargs or a.posonlyargs:
+            raise Untranslatable("signature of the helper `%s`" % fn.__name__)
+        params = [x.arg for x in a.args]
+        given = {}
+        for p, arg in zip(params, node.args):
+            given[p] = self.pure(arg, scope)
+        if len(node.args) > len(params):
+            raise Untranslatable("too many arguments for the helper `%s`" % fn.__name__)
+        for k in node.keywords:
+            if k.arg not in params or k.arg in given:
+                raise Untranslatable("keyword %r of the helper `%s`" % (k.arg, fn.__name__))
+            given[k.arg] = self.pure(k.value, scope)
+        for p, d in zip(params[len(params) - len(a.defaults):], a.defaults):
+            if p not in given:
+                given[p] = self.pure(d, {})
+        missing = [p for p in params if p not in given]
+        if missing:
+            raise Untranslatable("helper `%s`: no value for %s" % (fn.__name__, missing))
+        tmp = "tmp%d" % self._n
+        self._n += 1
+        self._frames[-1].append(("inline", (fn, fnode, params, given), tmp))
+        return tmp
+
+    def inline_call(self, what, tmp, k, scope, ind, ctx):
+        """the body of the helper with its parameters let-bound; every `return e` continues with `let tmp := e` and the
+        text `k` of the caller's statement and what follows it"""
+        fn, fnode, params, given = what
+        pad = "  " * ind
+        sc = {}
+        for j, v in enumerate(scope.values()):          # reserve the caller's names
+            sc["\0caller%d" % j] = v
+        sc["\0tmp" + tmp] = tmp
+        lines = ""
+        for p in params:
+            new = self.fresh(p, sc)
+            sc[p] = new
+            lines += "%slet %s := %s\n" % (pad, new, given[p])
+
+        def i_exit(v, s_, i):
+            # the caller's scope: its loop state is made of the caller's names
+            return ctx.bind(v, tmp, reindent(k, i + 1), scope, i)
+
+        def i_pure(e, s_, i):
+            return "%slet %s := %s\n%s" % ("  " * i, tmp, e, reindent(k, i))
+
+        inner = _C(i_exit, lambda s_, i: i_pure("none", s_, i), lambda x, s_, i: ctx.raise_(x, scope, i),
+                   lambda m, x, kk, s_, i: ctx.bind(m, x, kk, scope, i))
+        inner.exit_pure = i_pure
+        saved_globals, saved_pkg = self._globals, self._pkg
+        self._globals = fn.__globals__
+        self._inlining.append(fn.__name__)
+        try:
+            body = self.block(list(fnode.body), sc, ind, inner)
+        finally:
+            self._inlining.pop()
+            self._globals, self._pkg = saved_globals, saved_pkg
+        return lines + body
+
+    def function(self, fn, arg_names, ind=2, allow_unused=()):
+        self._globals = getattr(fn, "__globals__", {}) or {}
+        self._pkg = (getattr(fn, "__module__", "") or "").split(".")[0]
+        self._inlining = []
+        return P.Translator2.function(self, fn, arg_names, ind, allow_unused)
 
     def cond(self, node, scope):
         """translation in a Boolean context (truthiness of anything that is not syntactically a Boolean)"""
@@ -256,8 +382,11 @@ class Translator16(P.Translator2):
             text = self._block1(stmts, scope, ind, ctx)
         finally:
             pend = self._frames.pop()
-        for e, tmp in reversed(pend):
-            text = ctx.bind(e, tmp, text, scope, ind)
+        for e, what, tmp in reversed(pend):
+            if e == "inline":
+                text = self.inline_call(what, tmp, text, scope, ind, ctx)
+            else:
+                text = ctx.bind(what, tmp, text, scope, ind)
         return text
 
     def _block1(self, stmts, scope, ind, ctx):
@@ -432,13 +561,13 @@ class Translator16(P.Translator2):
             return "  " * i + R.pure_tmpl.format(e=("PyX.TryOut.fell %s" % s) if has_ret else s)
 
         def t_exit(v, sc, i):
-            return "  " * i + "(%s).bind fun r_ => %s" % (v, R.pure_tmpl.format(e="PyX.TryOut.ret r_"))
+            return "  " * i + R.bind.format(m=v, x="r_", k=R.pure_tmpl.format(e="PyX.TryOut.ret r_"))
 
         def t_raise(x, sc, i):
             return "  " * i + R.raise_tmpl.format(x=x)
 
         def t_bind(m, x, k, sc, i):
-            return "%s(%s).bind fun %s =>\n%s" % ("  " * i, m, x, k)
+            return "  " * i + R.bind.format(m=m, x=x, k=k)
 
         inner = _C(t_exit, t_end, t_raise, t_bind)
         inner.exit_pure = lambda e, sc, i: "  " * i + R.pure_tmpl.format(e="PyX.TryOut.ret (%s)" % e)
@@ -454,7 +583,7 @@ class Translator16(P.Translator2):
             lets += "%slet %s := %s\n" % ("  " * (ind + 2), new, _proj(res, j, len(names)))
         k_ok = lets + self.block(rest, after, ind + 2, ctx)
         if has_ret:
-            k_ok = "%smatch o_ with\n%s| .ret r_ =>\n%s\n%s| .fell %s =>\n%s" % (
+            k_ok = "%smatch o_ with\n%s| .ret r_ => (\n%s)\n%s| .fell %s =>\n%s" % (
                 "  " * (ind + 2), "  " * (ind + 2), ctx.exit(R.ret.format(e="r_"), scope, ind + 3), "  " * (ind + 2), res, k_ok)
             okv = "(o_ : PyX.TryOut _ Unit)" if not names else "o_"
         else:
@@ -555,7 +684,8 @@ class Translator16(P.Translator2):
         def l_bind(m, x, k, s, i):
             if not has_exit:
                 raise _NeedExit()
-            return "  " * i + R.bind_exit.format(m=m, x=x, k=k, pad="  " * i, fail=l_exit(R.raise_tmpl.format(x="e_"), s, i + 1))
+            return "  " * i + R.bind_exit.format(m=m, x=x, k=reindent(k, i + 2), pad="  " * i,
+                                                 fail=l_exit(R.raise_tmpl.format(x="e_"), s, i + 2))
 
         inner = _C(l_exit, lambda s, i: "  " * i + state(s),
                    lambda x, s, i: l_exit(R.raise_tmpl.format(x=x), s, i), l_bind,
@@ -599,7 +729,8 @@ class Translator16(P.Translator2):
             v = self.fresh("v", after)
             sc_v = dict(after)
             sc_v["\0tmp" + v] = v
-            return "%s%smatch %s with\n%s| some %s =>\n%s\n%s| none =>\n%s" % (
+            # the first arm is parenthesised: it may end in a `match` of its own (an inlined helper, a bind)
+            return "%s%smatch %s with\n%s| some %s => (\n%s)\n%s| none =>\n%s" % (
                 out, pad2, _proj(res, 0, n), pad2, v, ctx.exit(v, sc_v, ind2 + 2), pad2, k)
         return out + k
 
@@ -671,6 +802,7 @@ def E(**kw):
     kw.setdefault("pure_tmpl", ".ok ({e})")
     kw.setdefault("try_fn", "PyX.tryE")
     kw.setdefault("diverge", ".error Exc.fuel")
+    kw.setdefault("bind", "Except.bind ({m}) fun {x} =>\n{k}")     # applied, not dotted: {m} may have a type Lean has not inferred yet
     return Rules16(**kw)
 
 
@@ -757,6 +889,7 @@ def Wr(**kw):
     kw.setdefault("pure_tmpl", "W.pure ({e})")
     kw.setdefault("try_fn", "W.tryW")
     kw.setdefault("diverge", "W.throw Exc.fuel")
+    kw.setdefault("bind", "W.bind ({m}) fun {x} =>\n{k}")
     return Rules16(**kw)
 
 
@@ -821,7 +954,7 @@ def io_items():
                      "overwrite": "overwrite", "exporter_kwargs": "exporterkwargs"}), STUB))
     items.append((
         "def genExportPickle %s (pickleTypes : %s) (obj : ExObj) (fp : Fp) (overwrite : Bool) (protocol : Nat) : IOx Unit :=" % (ENVCWD, TBL),
-        f(Wr(expr=ISINST + CALLS + [("$x[-3:]", "(strLast3 {x})"), ('".gz"', '(ostr ".gz")'), ('{"protocol": $p}', '[("protocol", {p})]'),
+        f(Wr(expr=ISINST + CALLS + [("$x[-3:]", "(strLast3 {x})"), ('".gz"', '(ostr ".gz")'), ("$x.endswith($s)", "(strEndsWith {x} {s})", "bool"), ('{"protocol": $p}', '[("protocol", {p})]'),
                                    ('".pkl"', '(ostr ".pkl")')],
              withs=[('$o(str($p), "wb")', "(openWith cwd {o} {p})", "bind")], names=TABLES),
           OB.export_pickle, {"obj": "obj", "fp": "fp", "overwrite": "overwrite", "protocol": "protocol"}), STUB))
@@ -873,15 +1006,16 @@ def fmt_items():
     items = []
     items.append((
         "def genLjsonExporter (landmarksobject : LObj) : Except Exc Json :=",
-        f(E(expr=[("$x.n_points", "(LObj.nPoints {x})", "bind"), ('{"LJSON": $x}', "(LObj.wrap {x})"),
+        f(E(expr=[("$x.n_points", "(LObj.nPoints {x})", "bind"), ('hasattr($x, "n_points")', "(LObj.hasNPoints {x})", "bool"),
+                  ('{"LJSON": $x}', "(LObj.wrap {x})"), ("$f[$a::$n]", "(strideFrom {f} {a} {n})"),
+                  ("range($n)", "(List.range {n})"), ("list(zip(*$p))", "(transposeRows {p})"),
                   ('{"version": $v}', "(LDoc.mk {v} [])"), ("{}", "([] : List (String × LG))"),
                   ("$d.items()", "(LObj.items {d})"), ("$p.tojson()", "(tojson {p})"),
                   ('$j["landmarks"]["points"]', "({j}).points"), ("len($p[0])", "(rowLen0 {p})", "bind"),
                   ("itertools.chain(*$p)", "(List.flatten {p})"), ("np.isnan($x)", "(({x}).isNone)", "bool"),
-                  ("$f[::2]", "(takeEvery2 {f})"), ("$f[1::2]", "(takeEvery2 (({f}).drop 1))"),
-                  ("$f[::3]", "(takeEvery3 {f})"), ("$f[1::3]", "(takeEvery3 (({f}).drop 1))"),
-                  ("$f[2::3]", "(takeEvery3 (({f}).drop 2))"),
-                  ("list(zip($a, $b))", "(zipRows2 {a} {b})"), ("list(zip($a, $b, $c))", "(zipRows3 {a} {b} {c})"),
+                  ("$f[::$n]", "(strideFrom {f} 0 {n})"),
+                  ("list(zip($a, $b))", "(transposeRows [{a}, {b}])"),
+                  ("list(zip($a, $b, $c))", "(transposeRows [{a}, {b}, {c}])"),
                   ("[]", "([] : List (List (Option Rat)))"),
                   ('json.dump($j, $h, indent=4, separators=(",", ": "), sort_keys=True, allow_nan=False, cls=_UTF8Encoder)',
                    "(dumpDoc {j})")],
